@@ -459,6 +459,18 @@ func (fg *FnGen) recv(x *ssa.UnOp) {
 	fg.bind(x, r)
 	// blocking: other goroutines run meanwhile
 	fg.interference("channel receive")
+	if !x.CommaOk || true {
+		fg.atWait([]Term{fg.val(x.X).one()}, x.Pos())
+	}
+}
+
+// atWait: a blocking wait (plain receive, or select without default) is the pseudo call "$wait"; contracts
+// state what such waits must listen to (`at call $wait: assert waitson(g_done)`).
+func (fg *FnGen) atWait(chans []Term, pos token.Pos) {
+	saved := fg.waitChans
+	fg.waitChans = chans
+	fg.atCallAsserts("$wait", nil, pos)
+	fg.waitChans = saved
 }
 
 // interference: at a blocking operation other goroutines may run; unguarded shared state changes.
@@ -478,6 +490,15 @@ func (fg *FnGen) selectInstr(x *ssa.Select) {
 	}
 	fg.assume(And(Le(lo, idx), Lt(idx, IntLit(int64(len(x.States))))))
 	fg.bind(x, r)
+	if x.Blocking {
+		var chans []Term
+		for _, st := range x.States {
+			if st.Dir == types.RecvOnly {
+				chans = append(chans, fg.val(st.Chan).one())
+			}
+		}
+		fg.atWait(chans, x.Pos())
+	}
 }
 
 // guardedStore: stores to a plain field declared `guarded T.f by T.mu` need the lock as well.
